@@ -27,5 +27,6 @@ def replay(case):
         return engine_rt.replay(case)
     return DC.replay(case)
 
-DEMOTED = {r"find_powershell_strings/safe/IndexError@L\d+:list index": "args[0] needs `the invocation part of a two-word right-split is not blank` through split / join of '/', which the split model does not provide; covered by the run-time stand-in",
+DEMOTED = {r"find_windows_path/safe/IndexError@L\d+:list index": "segments[3] / segments[4] of a device path need the shape of ntpath.normpath's result (at least five pieces after the \\\\.\\ prefix), which is opaque to the encoding; covered by the run-time stand-in",
+           r"find_powershell_strings/safe/IndexError@L\d+:list index": "args[0] needs `the invocation part of a two-word right-split is not blank` through split / join of '/', which the split model does not provide; covered by the run-time stand-in",
            r"find_cmd_strings/safe/IndexError@L\d+:list index": "split[0] needs `the de-escaped match contains a non-blank byte` (a fact about caret_from over L(CMD_RE)) which z3 cannot derive; covered by the run-time stand-in"}
